@@ -547,6 +547,13 @@ def run(ctx):
     rps = reconnect_params()
     st_r, viols_r, _, _ = core.run_search(Reconnect, rps, bound, ctx.workers, ctx.seed)
     st.merge(st_r)
+    # a write of the client failing in the middle of a flush (scenario class shared with C09, judged here on the lifecycle)
+    from vf.checks import c09_client_conduct as c09
+    st_w, viols_w, _, _ = core.run_search(c09.WriteFault, c09.write_fault_params('c08'), 0, ctx.workers, ctx.seed)
+    st.merge(st_w)
+    for v in viols_w:
+        v['params'] = dict(v['params'], _write_fault=True)
+    viols += viols_w
     for v in viols_r:
         v['params'] = dict(v['params'], _reconnect=True)
     viols += viols_r
@@ -564,7 +571,7 @@ def run(ctx):
         'rule': 'server behaviours: %d connect answers; every poll-answer sequence of length <= %d over %r; POST answers %r; '
                 'WebSocket connect/first-frame behaviours; probe behaviours; application scripts (send / disconnect / both / twice) '
                 'and handler-initiated disconnects as a parallel script; x {Client, AsyncClient}; all interleavings at quiescence '
-                'and <= %d deviation(s); epilogue with wait(), no-op calls and a second connect(); plus early-reconnect scenarios (the application calls connect() again 3 s after the disconnect event, before the timers of the old connection have run out; the second connection, left in silence, must last until its own read timeout). states = distinct (scenario, '
+                'and <= %d deviation(s); epilogue with wait(), no-op calls and a second connect(); plus early-reconnect scenarios (the application calls connect() again 3 s after the disconnect event, before the timers of the old connection have run out; the second connection, left in silence, must last until its own read timeout); write-fault scenarios (the k-th write of a batch of sends fails once: exactly one transport-error disconnect, clean state). states = distinct (scenario, '
                 'event log, outcome) digests.' % (len(CONNECT_FAIL + CONNECT_OK) + 1, 2 if ctx.quick else 3, POLL_MENU, POST_MENU, bound),
         'exhaustive': True, 'bound_completed': bound, 'caps_hit': st.caps, 'scenarios': len(params),
         'executions_by_deviations': {str(k): v for k, v in sorted(st.by_dev.items())},
@@ -581,6 +588,9 @@ def run(ctx):
 def replay(ctx, payload):
     r = report.unbytes(payload['replay'])
     cls = Reconnect if r['params'].pop('_reconnect', False) else Lifecycle
+    if r['params'].pop('_write_fault', False):
+        from vf.checks import c09_client_conduct as c09
+        cls = c09.WriteFault
     ex = core.execute(cls, r['params'], r['choices'], want_labels=True)
     for lab in ex.labels:
         print('  ', lab)
